@@ -789,8 +789,9 @@ lemma conItems_R (D : DroDesc K) (cur : ℕ) (C : Constr K) (sel : Sel K) (L : L
     exact ⟨its, rfl, h1.symm, h2.symm⟩
 
 lemma conItems_E (D : DroDesc K) (cur : ℕ) (ps : List (Constr K)) (eq : Bool) (a : Option ℕ)
-    (L : List (DItem K)) (c1 : ℕ) (h : conItems D cur (.E ps eq a) = .ok (L, c1)) :
-    ∃ ai, eAmb D a = some ai ∧
+    (pat : ℕ → ℕ → ℕ → Bool)
+    (L : List (DItem K)) (c1 : ℕ) (h : conItems D cur (.E ps eq a pat) = .ok (L, c1)) :
+    ∃ ai, eAmb D a = some ai ∧ rejectsE D.rule D.nrand ps pat (eRowsOf ps) = false ∧
       L = (List.range ((if eq then 2 else 1) * eRowsOf ps)).flatMap (fun k =>
             eRow D (D.amb ai) ps (decide (eRowsOf ps ≤ k)) (cur + k * eW D (D.amb ai)) (k % eRowsOf ps)) ∧
       c1 = cur + (if eq then 2 else 1) * eRowsOf ps * eW D (D.amb ai) := by
@@ -800,9 +801,15 @@ lemma conItems_E (D : DroDesc K) (cur : ℕ) (ps : List (Constr K)) (eq : Bool) 
     rw [ha] at h; cases h
   | some ai =>
     rw [ha] at h
-    injection h with h
-    injection h with h1 h2
-    exact ⟨ai, rfl, h1.symm, h2.symm⟩
+    simp only at h
+    cases hrej : rejectsE D.rule D.nrand ps pat (eRowsOf ps) with
+    | true => rw [hrej] at h; simp at h
+    | false =>
+      rw [hrej] at h
+      simp only [Bool.false_eq_true, if_false] at h
+      injection h with h
+      injection h with h1 h2
+      exact ⟨ai, rfl, rfl, h1.symm, h2.symm⟩
 
 lemma conItems_le (D : DroDesc K) (cur : ℕ) (c : DCon K) (L : List (DItem K)) (c1 : ℕ)
     (h : conItems D cur c = .ok (L, c1)) : cur ≤ c1 := by
@@ -810,8 +817,8 @@ lemma conItems_le (D : DroDesc K) (cur : ℕ) (c : DCon K) (L : List (DItem K)) 
   | R C sel =>
     obtain ⟨_, _, _, h3⟩ := conItems_R D cur C sel L c1 h
     omega
-  | E ps eq a =>
-    obtain ⟨_, _, _, h3⟩ := conItems_E D cur ps eq a L c1 h
+  | E ps eq a pat =>
+    obtain ⟨_, _, _, _, h3⟩ := conItems_E D cur ps eq a pat L c1 h
     rw [h3]; exact Nat.le_add_right _ _
 
 lemma go_cons (D : DroDesc K) (cur : ℕ) (c : DCon K) (t : List (DCon K)) (L : List (DItem K)) (n : ℕ)
@@ -951,8 +958,8 @@ theorem droItems_wf (D : DroDesc K) (items : List (DItem K)) (nd : ℕ) (h : dro
       rw [hL] at h2
       obtain ⟨it, _, hit⟩ := List.mem_map.mp h2
       exact absurd hit (ofItem_not_pre _ it R S)
-    | E ps eq a =>
-      obtain ⟨ai, _, hL, hc1⟩ := conItems_E D cur' ps eq a L' c1 h1
+    | E ps eq a pat =>
+      obtain ⟨ai, _, _, hL, hc1⟩ := conItems_E D cur' ps eq a pat L' c1 h1
       rw [hL] at h2
       obtain ⟨k, hk, hit⟩ := List.mem_flatMap.mp h2
       have hk' := List.mem_range.mp hk
@@ -976,8 +983,8 @@ theorem droItems_wf (D : DroDesc K) (items : List (DItem K)) (nd : ℕ) (h : dro
       rw [hL] at h2
       obtain ⟨it, _, hit⟩ := List.mem_map.mp h2
       exact absurd hit (ofItem_not_bnd _ it b)
-    | E ps eq a =>
-      obtain ⟨ai, _, hL, hc1⟩ := conItems_E D cur' ps eq a L' c1 h1
+    | E ps eq a pat =>
+      obtain ⟨ai, _, _, hL, hc1⟩ := conItems_E D cur' ps eq a pat L' c1 h1
       rw [hL] at h2
       obtain ⟨k, hk, hit⟩ := List.mem_flatMap.mp h2
       unfold eRow at hit
@@ -1248,6 +1255,41 @@ lemma eval_zero (R : RoRows K) (n : ℕ) (v : ℕ → K) :
   have : ∑ j ∈ range R.nz, ((∑ d ∈ range R.nd, R.Rl n j d * v d) + R.Rc n j) * (0 : K) = 0 := by
     apply Finset.sum_eq_zero; intro j _; rw [mul_zero]
   rw [this, zero_add]
+
+
+/-- **no exception of `dro_to_roc`'s check**: a decision column in the pattern of a random coefficient of a checked
+row of a `DecRoConstr` piece has no dependency declared -/
+lemma not_rejectsE (r : Rule) (nrand : ℕ) (ps : List (Constr K)) (pat : ℕ → ℕ → ℕ → Bool) (m : ℕ)
+    (h : rejectsE r nrand ps pat m = false) (i : ℕ) (hi : i < m) (l : ℕ) (hl : l < ps.length)
+    (hk : (ps.getD l Constr.zero).kind = .ro) (d : ℕ) (hd : d < r.nv) (hp : pat l i d = true)
+    (j : ℕ) (hj : j < nrand) : r.mask d j = false := by
+  by_contra hm
+  have hm' : r.mask d j = true := by
+    cases hh : r.mask d j
+    · exact absurd hh hm
+    · rfl
+  have h1 : r.isRo nrand = true := by
+    unfold Rule.isRo
+    rw [List.any_eq_true]
+    refine ⟨d, List.mem_range.mpr hd, ?_⟩
+    rw [List.any_eq_true]
+    exact ⟨j, List.mem_range.mpr hj, hm'⟩
+  have h2 : ((List.range m).any fun i => (List.range ps.length).any fun l =>
+      ((ps.getD l Constr.zero).kind == .ro) && (List.range r.nv).any fun d =>
+        pat l i d && (List.range nrand).any fun j => r.mask d j) = true := by
+    rw [List.any_eq_true]
+    refine ⟨i, List.mem_range.mpr hi, ?_⟩
+    rw [List.any_eq_true]
+    refine ⟨l, List.mem_range.mpr hl, ?_⟩
+    rw [Bool.and_eq_true]
+    refine ⟨by rw [hk]; rfl, ?_⟩
+    rw [List.any_eq_true]
+    refine ⟨d, List.mem_range.mpr hd, ?_⟩
+    rw [Bool.and_eq_true, List.any_eq_true]
+    exact ⟨hp, j, List.mem_range.mpr hj, hm'⟩
+  unfold rejectsE at h
+  rw [h1, h2] at h
+  simp at h
 
 end DroModel
 end RsomeV
